@@ -333,7 +333,8 @@ func e2eCase(run *ev.Run, j int, router int) {
 		if callbackPhase {
 			exp.Params = append(exp.Params, pair{"session_state", p.ss})
 		} else {
-			exp.AllowExtra["session_state"] = true
+			// the request object of the authorization endpoint carries no session state: none may arrive
+			exp.Params = append(exp.Params, pair{"session_state", ""})
 		}
 		switch {
 		case p.faultKind != "plain":
@@ -352,7 +353,8 @@ func e2eCase(run *ev.Run, j int, router int) {
 		if callbackPhase {
 			exp.Params = append(exp.Params, pair{"session_state", p.ss})
 		} else {
-			exp.AllowExtra["session_state"] = true
+			// the request object of the authorization endpoint carries no session state: none may arrive
+			exp.Params = append(exp.Params, pair{"session_state", ""})
 		}
 		exp.Present = []string{"error"}
 		exp.AllowExtra["error_description"] = true
@@ -458,7 +460,6 @@ func e2eCase(run *ev.Run, j int, router int) {
 			exp.Params = append(exp.Params, pair{"code", code})
 			exp.Input["code_produced"] = code
 		} else {
-			exp.AllowExtra["session_state"] = true // not part of a token response
 			exp.Params = exp.Params[:1]
 			exp.Verify = map[string]func(string) error{
 				"id_token": func(tok string) error {
